@@ -1,5 +1,9 @@
 package dtls
 
+// GENERATED from harness/C09/seq.go (entries kept: handshake records and the re-sent final flight). C01: after both
+// sides report success application data flows, which needs the records written after a re-sent Finished to carry numbers
+// the peer has not seen.
+
 //symgo:pkg github.com/pion/dtls/v3
 //symgo:param NPAY quick=3 thorough=6
 //symgo:stub CipherSuite is a harness fake whose Encrypt returns its input and records the header it was given
@@ -55,7 +59,6 @@ func zzConn12(suite *zzFakeSuite) *Conn {
 
 // Allocation step from an arbitrary counter: returns the pre-value and leaves pre+1, or fails iff pre > 2^48-1.
 //
-//symgo:entry covers=alloc_ok,alloc_overflow
 func zzSeqStep() {
 	c := zzConn12(&zzFakeSuite{})
 	common := dtlsstate.CommonState(c.state)
@@ -94,7 +97,6 @@ func zzSeqStep() {
 // processPacket: the sequence number written on the wire and handed to the cipher equals the one just
 // allocated, for plain and CID-wrapped application records.
 //
-//symgo:entry covers=plain,cid
 func zzSeqOnWireAppData() {
 	suite := &zzFakeSuite{}
 	c := zzConn12(suite)
@@ -241,7 +243,6 @@ func zzAppDataAfterResentFinished() {
 // epoch unchanged for every 64-bit counter value (including values past 2^48-1, which must keep refusing writes after
 // an import) and every epoch index in range. The remaining half (generateInternalState storing it back) is C19.
 //
-//symgo:entry covers=exported
 func zzSeqExportContinuity() {
 	st := &dtlsstate.State12{Common: &dtlsstate.Common{IsClient: zzsymChoice("isClient", 2) == 1, LocalVersion: protocol.Version1_2}}
 	st.CipherSuite = &zzFakeSuite{}
@@ -294,7 +295,6 @@ func (p *zzSeal9) UnmaskSequenceNumber(h recordlayer.UnifiedHeader, _ []byte) (r
 // the pair (key generation, record number) never repeats, also beyond 2^16 records and for a record of a superseded
 // epoch emitted after a key update.
 //
-//symgo:entry covers=current_epoch,superseded_epoch
 func zzSeqOnWire13() {
 	c := zzConn12(&zzFakeSuite{})
 	st := dtlsstate.Activate13(c.state)
@@ -344,7 +344,6 @@ func zzSeqOnWire13() {
 // second record gets the next number. So an unprotected record never borrows a number from one epoch's counter and
 // shows it under another epoch (which would repeat a pair already used there).
 //
-//symgo:entry covers=plain13_epoch0,plain13_epoch2
 func zzSeqOnWire13Unprotected() {
 	c := zzConn12(&zzFakeSuite{})
 	st := dtlsstate.Activate13(c.state)
@@ -390,7 +389,6 @@ func zzSeqOnWire13Unprotected() {
 // number is that pair, consecutive records (also across the two transmissions) get consecutive numbers, and the
 // other epoch's counter does not move. So a retransmitted flight never re-uses a number of its epoch.
 //
-//symgo:entry covers=hs13_epoch2_while_epoch3_is_current,hs13_current_epoch
 func zzSeqOnWire13Handshake() {
 	c := zzConn12(&zzFakeSuite{})
 	st := dtlsstate.Activate13(c.state)
